@@ -10,6 +10,14 @@ from .utils import make_list, ALL
 T = TypeVar("T")
 
 
+class IdentifiedByItself:
+    """
+    Marker for the package's own objects that carry their identifier in `_id_` (symbolic expressions). Every other object -
+    also one that happens to have an attribute of that name, or answers every attribute through `__getattr__` - is
+    identified by `id()`.
+    """
+
+
 @dataclass
 class HashedValue(Generic[T]):
     """
@@ -31,7 +39,7 @@ class HashedValue(Generic[T]):
             if isinstance(self.value, HashedValue):
                 self.id_ = self.value.id_
                 self.value = self.value.value
-            elif hasattr(self.value, "_id_"):
+            elif isinstance(self.value, IdentifiedByItself):
                 self.id_ = self.value._id_
             else:
                 self.id_ = id(self.value)
